@@ -25,7 +25,8 @@ GARBAGE_APPENDED = ['4c%%', '=1x', '*clefG9', '4cc#4%', '=1||x', '2.r%', '*M4/4x
 # cells on which the recogniser reports an error AND the token builder raises (rests with note-only signifiers ...)
 BUILDER_RAISES = ['8rJ', '2r[', 'r]', '2r;]', '4r_', '4rL', 'z2r[', '4r/']
 # characters the lexer cannot tokenise at all (control characters, non-ASCII), at the start, inside and at the end
-NONASCII = ['4f\u266f', '4\u00a0f#', '\u00bf4E', '4a\x7fL', '4c\u266d', '\u00e9', '\u65e54c', '4c\x01', '\x1b4c']
+NONASCII = ['4f\u266f', '4\u00a0f#', '\u00bf4E', '4a\x7fL', '4c\u266d', '\u00e9', '\u65e54c', '4c\x01', '\x1b4c',
+            '4\ufeffd', '\ufeff4E', '4c\ufeff', '4\u200bc', '8\u00add']      # zero-width / format characters inside a token
 # a token truncated to nothing: an empty cell (two tabs in a row, a trailing tab) is an error in a spine of ANY type
 EMPTY = ['']
 # truncated bounding boxes: the recogniser recovers from them in its own way (the tree walk meets missing children)
@@ -41,6 +42,7 @@ MUST_REJECT = {'4zz', 'h', '\u00d64c', '\u00a7', '4c 4zz', '%%', '4&c&&', 'u', '
                '8rJ', '2r[', 'r]', '2r;]', '4r_', '4rL', 'z2r[', '4r/',
                '*xywh-1:10,20,300', '*xywh-1:10,20', '*xywh-1', '*xywh', '*xywh-1:10;20;300;400',
                '4c ', '8.dd#L  ', '2r\u00a0', '4c 4e\x1f', ' 4c', '4c\u2003', '2r ', '16ee-J \u00a0',
+               '4\ufeffd', '\ufeff4E', '4c\ufeff', '4\u200bc', '8\u00add',
                '4f\u266f', '4\u00a0f#', '\u00bf4E', '4a\x7fL', '4c\u266d', '\u00e9', '\u65e54c', '4c\x01', '\x1b4c'}
 
 
